@@ -569,6 +569,31 @@ pub fn run_c07(ctx: &Ctx) -> Outcome {
     if out.failed() {
         return out;
     }
+    // (a') a few very long generations (seconds each): anything that depends on elapsed time, load or
+    // scheduling has room to show here
+    {
+        let n = if ctx.thorough() { 40_000 } else { 20_000 };
+        let items: Vec<GenCase> = (0u8..=5)
+            .map(|p| {
+                let mut c = GenCase::default_for(p, ctx.seed ^ (p as u64) << 20);
+                c.min_opcodes = n;
+                c.max_opcodes = n;
+                if p % 2 == 1 {
+                    c.entropy = Entropy::Bytes((0..4096u32).map(|i| (i.wrapping_mul(2654435761) >> 13) as u8).collect());
+                }
+                c
+            })
+            .collect();
+        let (st, found) = run_enum(items, |c, st| {
+            st.label("(a') very long generation repeated on two threads");
+            lib_level::check_c07_inproc(ctx, c, st)
+        });
+        out.stats.merge(st);
+        if let Some((c, f)) = found {
+            out.violation = Some(Violation { fail: f, case: serde_json::to_value(&c).unwrap() });
+            return out;
+        }
+    }
     // (b) + (c): fixed list
     let n_list = ctx.n(2000, 40_000) as usize;
     let list: Vec<GenCase> = materialise(&case::gencase(&p), ctx.seed, 71, n_list);
